@@ -144,6 +144,8 @@ def strip_spans(v):
             return [v[0], [strip_spans(x) for x in v[1]]]
         if v[0] in ('I', 'P', 'Q'):
             return [v[0]] + [strip_spans(x) for x in v[1:]]
+        if v[0] == 'd':
+            return ['d', [[strip_spans(k), strip_spans(x)] for k, x in v[1]]]
     return v
 
 
